@@ -213,6 +213,57 @@ Qed.
 Lemma tls_per_fiber f tr : reads_of f (run init tr) = reads_of f (run init (filter (mine f) tr)).
 Proof. apply (per_fiber f tr init init). repeat split. Qed.
 
+(* what a fiber reads: its own last store if it stored at all — a stored nullptr (0) included —, else the
+   variable's initialiser (the last SetDefault) *)
+Fixpoint last_store (f : fid) (x : nat) (tr : list ev) (acc : option nat) : option nat :=
+  match tr with
+  | [] => acc
+  | ESet g y v :: r => last_store f x r (if Nat.eqb g f && Nat.eqb y x then Some v else acc)
+  | _ :: r => last_store f x r acc
+  end.
+Fixpoint last_default (x : nat) (tr : list ev) (acc : nat) : nat :=
+  match tr with
+  | [] => acc
+  | EDefault y v :: r => last_default x r (if Nat.eqb y x then v else acc)
+  | _ :: r => last_default x r acc
+  end.
+
+Lemma own_store_or_default tr : forall s f x,
+  get (run s tr) f x =
+  match last_store f x tr (tls s f x) with Some v => v | None => last_default x tr (dflt s x) end.
+Proof.
+  induction tr as [|e tr IH]; intros s f x; [reflexivity|].
+  simpl. rewrite IH. destruct e as [g y v|g y|y v]; simpl.
+  - unfold upd. destruct (Nat.eqb_spec f g); subst.
+    + rewrite Nat.eqb_refl. simpl. destruct (Nat.eqb_spec x y); subst.
+      * rewrite Nat.eqb_refl. reflexivity.
+      * assert (E : Nat.eqb y x = false) by (apply Nat.eqb_neq; congruence). rewrite E. reflexivity.
+    + assert (E : Nat.eqb g f = false) by (apply Nat.eqb_neq; congruence). rewrite E. reflexivity.
+  - reflexivity.
+  - unfold upd. destruct (Nat.eqb_spec x y); subst.
+    + rewrite Nat.eqb_refl. reflexivity.
+    + assert (E : Nat.eqb y x = false) by (apply Nat.eqb_neq; congruence). rewrite E. reflexivity.
+Qed.
+
+(* in particular: after a fiber stored nullptr it reads nullptr, whatever the initialiser is and whatever the
+   other fibers store meanwhile *)
+Lemma null_store_kept s f x tr :
+  (forall g y v, In (ESet g y v) tr -> g <> f \/ y <> x) ->
+  get (run (step s (ESet f x 0)) tr) f x = 0.
+Proof.
+  intros H. rewrite own_store_or_default. simpl. rewrite !upd_eq.
+  assert (L : forall acc, last_store f x tr acc = acc).
+  { induction tr as [|e tr IH]; intros acc; [reflexivity|]. destruct e as [g y v|g y|y v]; simpl.
+    - destruct (H g y v (or_introl eq_refl)) as [N|N].
+      + assert (E : Nat.eqb g f = false) by (apply Nat.eqb_neq; congruence). rewrite E. simpl.
+        apply IH. intros g' y' v' I. apply (H g' y' v'). right. exact I.
+      + assert (E : Nat.eqb y x = false) by (apply Nat.eqb_neq; congruence). rewrite E, andb_false_r.
+        apply IH. intros g' y' v' I. apply (H g' y' v'). right. exact I.
+    - apply IH. intros g' y' v' I. apply (H g' y' v'). right. exact I.
+    - apply IH. intros g' y' v' I. apply (H g' y' v'). right. exact I. }
+  rewrite L. reflexivity.
+Qed.
+
 (* distinct thread-local variables get distinct slots when there is one counter *)
 Lemma slots_from_seq seen tys : slots_from true seen tys = seq (length seen) (length tys).
 Proof.
